@@ -106,40 +106,53 @@ def check_dates(yearrange):
 def bin_start(stride, source, origin):
     """start of the stride-aligned bin containing source: the largest origin + k*stride <= source"""
     if stride.months or stride.years:
-        k = 0
-        if source >= origin:
-            while origin + stride * (k + 1) <= source:
-                k += 1
-        else:
-            while origin + stride * k > source:
-                k -= 1
+        m = stride.years * 12 + stride.months
+        k = ((source.year - origin.year) * 12 + source.month - origin.month) // m
+        while origin + stride * k > source:
+            k -= 1
+        while origin + stride * (k + 1) <= source:
+            k += 1
         return origin + stride * k
     days = stride.days
     k = (source - origin).days // days
     return origin + datetime.timedelta(days=k * days)
 
 
+STRIDES = [('1 day', dict(days=1)), ('7 days', dict(days=7)), ('10 days', dict(days=10)), ('1 month', dict(months=1)),
+           ('3 months', dict(months=3)), ('1 year', dict(years=1)), ('2 years', dict(years=2))]
+ORIGINS = [date(2000, 1, 1), date(2024, 1, 15), date(1999, 12, 31), date(2024, 2, 29)]
+
+
+def _bins_one(job):
+    txt, kw, origin, step = job
+    st = relativedelta(**kw)
+    n, bad = 0, []
+    d = date(1998, 1, 1)
+    while d < date(2026, 1, 1):
+        n += 1
+        try:
+            got = call('date_bin', txt, d, origin)
+            got2 = call('date_bin', st, d, origin)
+        except Exception as e:
+            got = got2 = f'{type(e).__name__}: {e}'
+        exp = bin_start(st, d, origin)
+        if (got != exp or got2 != exp) and len(bad) < 3:
+            kind = 'month-year-strides' if (st.months or st.years) else 'day-strides'
+            if (st.months or st.years) and origin.day > 28:
+                kind = 'month-stride-with-month-end-origin'
+            bad.append((kind, {'stride': txt, 'source': d.isoformat(), 'origin': origin.isoformat()}, (got, got2), exp))
+        d += datetime.timedelta(days=step)
+    return n, bad
+
+
 def check_bins(res, tier):
-    strides = [('1 day', relativedelta(days=1)), ('7 days', relativedelta(days=7)), ('10 days', relativedelta(days=10)), ('1 month', relativedelta(months=1)),
-               ('3 months', relativedelta(months=3)), ('1 year', relativedelta(years=1)), ('2 years', relativedelta(years=2))]
-    origins = [date(2000, 1, 1), date(2024, 1, 15), date(1999, 12, 31)]
     step = 1 if tier != 'quick' else 3
-    for (txt, st), origin in itertools.product(strides, origins):
-        d = date(1998, 1, 1)
-        while d < date(2026, 1, 1):
-            res.case(('date_bin', txt, origin.isoformat(), d.isoformat()))
-            try:
-                got = call('date_bin', txt, d, origin)
-                got2 = call('date_bin', st, d, origin)
-            except Exception as e:
-                got = got2 = f'{type(e).__name__}: {e}'
-            exp = bin_start(st, d, origin)
-            if got != exp or got2 != exp:
-                kind = 'month-year-strides' if (st.months or st.years) else 'day-strides'
-                if (st.months or st.years) and origin.day > 28:
-                    kind = 'month-stride-with-month-end-origin'
-                res.violation(f'h18:date_bin:{kind}', 'date_bin returns the start of the stride-aligned bin containing the date', {'stride': txt, 'source': d.isoformat(), 'origin': origin.isoformat()}, (got, got2), exp)
-            d += datetime.timedelta(days=step)
+    jobs = [(txt, kw, origin, step) for (txt, kw), origin in itertools.product(STRIDES, ORIGINS)]
+    for (txt, kw, origin, _), (n, bad) in zip(jobs, pmap(_bins_one, jobs, jobs=16, chunk=1, force=True)):
+        res.evaluations += n
+        res.keys.update(('date_bin', txt, origin.isoformat(), k) for k in range(n))
+        for kind, case, obs, exp in bad:
+            res.violation(f'h18:date_bin:{kind}', 'date_bin returns the start of the stride-aligned bin containing the date', case, obs, exp)
     for txt in ('0 days', '0 months'):
         res.case(('date_bin-zero', txt))
         try:
